@@ -10,6 +10,11 @@ CLAIMED = {
    note="Trusted: Lean kernel, axioms {propext, Classical.choice, Quot.sound}, tools/extract.py (the Rust-expression translator), the 64-bit arm of token.rs only; TokenFactory is hand-modelled and tied by the correspondence (differential, sampled).",
    technique="Lean 4 proof (omega/induction) over a source-regenerated model + bridge lemmas + differential correspondence",
    design="§6 C20"),
+ "C18": dict(
+   text="Lean 4 theorem C18_partial: for every sequence (any length) of child answers, remove()/replace() and parent register/reregister/unregister calls from both From<T> and Default in which no child answers Disable, the monitor Spec_C18 (no double register/unregister, unregistered before dropped, events only to the current child, only Continue/Reregister returned, registered iff current kept child of a registered parent) flags nothing on protocol-following prefixes; proved by an invariant relating the six wrapper states to the monitor's abstract view. C18_full_false proves the unrestricted statement false (finding F7). The model mirrors transient.rs arm for arm and is compared with the real TransientSource on every sequence of length <= 5 (quick) / 6 (thorough) plus random longer ones, with real ping sources as children and the kernel epoll table size checked after each call; the same Spec_C18 judges the implementation traces.",
+   note="Trusted: Lean kernel + the three standard axioms; Spec_C18 as the reading of the English; hand-written model tied by exhaustive small-scope differential runs (not by translation); children assumed fd-backed and otherwise infallible. Known finding F7 (Disable conflation) is excluded from the proved statement by the hypothesis `no child answers Disable` and reported as KNOWN-FINDING.",
+   technique="Lean 4 invariant proof over a hand-written model + exhaustive small-scope correspondence + Lean monitor on implementation traces",
+   design="§6 C18"),
 }
 PENDING_REASON = "not claimed yet in this revision: model and theorems are being built (see DESIGN.md §12 build order); no check is registered rather than registering an unsound one"
 
